@@ -36,6 +36,20 @@ MUTANTS = [
     dict(id='c20-arity-lax', property='C20', file='fggs/fggs.py', old='        if fac.arity != el.arity:', new='        if fac.arity < el.arity:'),
     dict(id='c20-shape-numel', property='C20', file='fggs/factors.py', old='        if weights.shape != size:', new='        if weights.shape.numel() != size.numel():'),
     dict(id='c20-range-contains', property='C20', file='fggs/domains.py', old='        return 0 <= value < self._size', new='        return 0 <= value <= self._size'),
+    # ---- C06
+    dict(id='c06-abs_-default', property='C06', file='fggs/indices.py', old='        self.default = abs(self.default)\n        self.physical.abs_()', new='        self.physical.abs_()'),
+    dict(id='c06-clone-shares-storage', property='C06', file='fggs/indices.py', old='        return PatternedTensor(self.physical.clone(),\n                               tuple(k.freshen(rename) for k in self.paxes),', new='        return PatternedTensor(self.physical,\n                               tuple(k.freshen(rename) for k in self.paxes),'),
+    dict(id='c06-where-no-freshen', property='C06', file='fggs/indices.py', old='        if not t.isdisjoint(c): t = t.freshen()\n', new=''),
+    dict(id='c06-sumaxis-index-after', property='C06', file='fggs/indices.py', old='        return 0 <= i < n and self.term.index(physical, i)', new='        return 0 <= i <= n and self.term.index(physical, min(i, n - 1))'),
+    dict(id='c06-unsqueeze-negdim', property='C06', file='fggs/indices.py', old='        if dim < 0: dim += self.ndim + 1\n        vaxes = list(self.vaxes)\n        vaxes.insert(dim, unitAxis)', new='        if dim < 0: dim += self.ndim\n        vaxes = list(self.vaxes)\n        vaxes.insert(dim, unitAxis)'),
+    dict(id='c06-logsoftmax-default', property='C06', file='fggs/indices.py', old='self.paxes, self.vaxes, -log(k._numel))', new='self.paxes, self.vaxes, 0.)'),
+    dict(id='c06-sub-default', property='C06', file='fggs/indices.py', old='            default = self.default - other.default\n            if self.default != 0 or', new='            default = self.default + other.default\n            if self.default != 0 or'),
+    dict(id='c06-commutative-branch', property='C06', file='fggs/indices.py', old='           len(paxes2) == len(u.paxes) and t.physical.numel() >= u.physical.numel():\n            td = PatternedTensor(tp, paxes1, es, t.default).to_dense()\n            if u.default == identity:',
+         new='           len(paxes2) == len(u.paxes) and t.physical.numel() >= u.physical.numel():\n            td = PatternedTensor(tp, paxes1, es, t.default).to_dense()\n            if u.default == identity or u.default == 0:'),
+    dict(id='c06-productaxis-stride', property='C06', file='fggs/indices.py', old='            if offset or stride:\n                n = e.numel()', new='            if stride:\n                n = e.numel()'),
+    dict(id='c06-post-init-keeps-size1', property='C06', file='fggs/indices.py', old="            subst = {k:unitAxis for k in self.paxes if k._numel == 1}\n            if subst:", new="            subst = {k:unitAxis for k in self.paxes if k._numel == 1}\n            if False and subst:"),
+    dict(id='c06-copy_-alias', property='C06', file='fggs/indices.py', old='                self.physical = src.physical.clone()\n        else:\n            self.physical = src.physical.clone()', new='                self.physical = src.physical.clone()\n        else:\n            self.physical = src.physical'),
+    dict(id='c06-to_dense-fastpath-reorder', property='C06', file='fggs/indices.py', old='    return (virtual.as_strided(tuple(k._numel  for k in paxes),', new='    return (virtual.as_strided(tuple(k._numel  for k in paxes),', expect='silent'),
     # ---- C16
     dict(id='c16-copy-shares-nodes-dict', property='C16', file='fggs/fggs.py', old='        copy._nodes = dict(self._nodes)', new='        copy._nodes = self._nodes'),
     dict(id='c16-remove-node-no-ext-guard', property='C16', file='fggs/fggs.py', old="        if node in self.ext:\n            raise ValueError", new="        if False and node in self.ext:\n            raise ValueError"),
